@@ -135,6 +135,7 @@ def _deductive_task(arg) -> dict:
             obs.append(d)
         return {'contract': contract.qualname, 'scenario': scen, 'shard': shard, 'sha256': rep.sha256, 'paths': rep.paths, 'obligations': obs,
                 'out_of_subset': rep.out_of_subset, 'assumptions': sorted(rep.assumptions), 'covers': sorted(rep.covers),
+                'assumption_text': {a: __import__('pyvc.libspec', fromlist=['ASSUMPTIONS']).ASSUMPTIONS.get(a, '') for a in rep.assumptions},
                 'outcomes': rep.outcomes, 'gen_seconds': round(rep.seconds, 2), 'seconds': round(time.time() - t0, 2),
                 'error': None, 'scenarios': list(rep.scenarios)}
     except Exception as ex:  # noqa: BLE001
@@ -497,7 +498,10 @@ def main(argv=None) -> int:
     level = prop.level if (proved_all or prop.level != 'proof') else 'other'
     from pyvc.libspec import ASSUMPTIONS
     used = sorted({a for r in ded for a in r['assumptions']})
-    trusted = list(prop.trusted_base) + [f'{a}: {ASSUMPTIONS.get(a, "")}' for a in used]
+    atext = dict(ASSUMPTIONS)
+    for r in raw_ded:
+        atext.update({k: v for k, v in (r.get('assumption_text') or {}).items() if v})
+    trusted = list(prop.trusted_base) + [f'{a}: {atext.get(a, "")}' for a in used]
     sample_obs = [{k: o[k] for k in ('name', 'scenario', 'status', 'backend', 'seconds')} for o in all_obs[:8]]
     bsum = [{k: v for k, v in r.items() if k != 'violation_list'} for r in bnd]
     evals = sum(r.get('evaluations', 0) for r in bnd)
